@@ -21,7 +21,15 @@ None == [none |-> TRUE]
 FSet == TreesN(NF, PredSet(PF), TermSet(TF), K)
 GSetAll == TreesN(NG, PredSet(PG), TermSet(TG), K)
 \* "arithdeep": deep total right operands (paths of different length below the grafted root), + and - only
-GSet == IF MODE = "arithdeep" THEN {x \in GSetAll : IsTotal(x) /\ NumDec(x) >= 3} ELSE GSetAll
+\* unbalanced total operands: one branch of the root is one level deeper than the other (both orientations), every predicate from PG
+DeepTrees ==
+    \* every leaf carries a different function (same shape as the terminals of TG, bias = position), so pruning a wrong branch is visible
+    LET tm == CHOOSE a \in TermSet(TG) : TRUE
+        Lf(k) == Leaf([tm EXCEPT !.b = [i \in 1..Len(tm.b) |-> k]])
+    IN UNION {{Dec(p0, <<Dec(p1, <<Lf(1), Lf(2)>>), Dec(p2, <<Lf(3), Dec(p3, <<Lf(4), Lf(5)>>)>>)>>),
+               Dec(p0, <<Dec(p2, <<Dec(p3, <<Lf(4), Lf(5)>>), Lf(3)>>), Dec(p1, <<Lf(1), Lf(2)>>)>>)}
+              : p0 \in PredSet(PG), p1 \in PredSet(PG), p2 \in PredSet(PG), p3 \in PredSet(PG)}
+GSet == IF MODE = "arithdeep" THEN DeepTrees ELSE GSetAll
 Ops == CASE MODE = "compose" -> {"compose"}
          [] MODE = "arith" -> {"add", "sub", "mul", "div"}
          [] MODE = "arithdeep" -> {"add", "sub"}
@@ -39,7 +47,10 @@ PickF == \E x \in FSet, lay \in LAYOUTS :
     /\ ~(lay \in {"hole", "low"} /\ (x.t # "D" \/ ScriptOf(x, K, lay) = ScriptOf(x, K, "dfs")))
     /\ f' = [abs |-> x, lay |-> lay, t |-> BuildTree(x, K, lay)]
     /\ stage' = "f" /\ UNCHANGED <<g, h, op, aff, sched, hist>>
-PickG == \E x \in GSet :
+\* in the pruning modes the leaves of the right operand are made pairwise different (see DistinctLeaves)
+GOf(x) == IF MODE \in {"pruneg", "prunea"} THEN DistinctLeaves(x, 1) ELSE x
+PickG == \E y \in GSet :
+    LET x == GOf(y) IN
     /\ stage = "f" /\ MODE \in {"compose", "arith", "arithdeep", "pruneg", "prunea"}
     /\ g' = [abs |-> x, lay |-> "dfs", t |-> BuildTree(x, K, "dfs")]
     /\ stage' = "fg" /\ UNCHANGED <<f, h, op, aff, sched, hist>>
